@@ -205,31 +205,39 @@ def compare(script_text, ri, rm, pid):
     return out
 
 
-def shrink(exe, mmodel, script_text, workdir, pid, kind, budget=80):
-    """delta-debug script lines (keeps init/domain/forest lines); a candidate
+def shrink(exe, mmodel, script_text, workdir, pid, kind, budget=160):
+    """ddmin over script lines (init/domain/forest lines are kept); a candidate
     counts only if it still shows a disagreement of the same kind"""
     lines = script_text.splitlines()
+    runs = [0]
 
     def fails(ls):
-        ri, rm = run_one(exe, mmodel, "\n".join(ls) + "\n", workdir, 9999)
-        ds = compare("\n".join(ls) + "\n", ri, rm, pid)
+        runs[0] += 1
+        txt = "\n".join(ls) + "\n"
+        ri, rm = run_one(exe, mmodel, txt, workdir, 9999)
+        ds = compare(txt, ri, rm, pid)
         return any(d.get("kind") == kind for d in ds)
 
-    n = 0
-    changed = True
-    while changed and n < budget:
-        changed = False
-        for i in range(len(lines) - 1, -1, -1):
-            if n >= budget:
-                break
-            t = lines[i].split()
-            if not t or t[0] in ("init", "domain", "forest"):
-                continue
-            cand = lines[:i] + lines[i + 1:]
-            n += 1
-            if fails(cand):
-                lines = cand
-                changed = True
+    def removable(i):
+        t = lines[i].split()
+        return bool(t) and t[0] not in ("init", "domain", "forest")
+
+    chunk = max(1, len(lines) // 2)
+    while chunk >= 1 and runs[0] < budget:
+        i = 0
+        progressed = False
+        while i < len(lines) and runs[0] < budget:
+            idx = [k for k in range(i, min(len(lines), i + chunk)) if removable(k)]
+            if idx:
+                cand = [l for k, l in enumerate(lines) if k not in set(idx)]
+                if fails(cand):
+                    lines = cand
+                    progressed = True
+                    continue
+            i += chunk
+        if chunk == 1 and not progressed:
+            break
+        chunk = chunk // 2 if chunk > 1 else (1 if progressed else 0)
     return "\n".join(lines) + "\n"
 
 
@@ -337,8 +345,7 @@ def main():
                     disagreements.append((nm, txt, ds))
 
         for nm, txt, ds in disagreements[:5]:
-            small = shrink(exe, mmodel, txt, workdir, pid, ds[0].get("kind")) \
-                if len(txt.splitlines()) < 200 else txt
+            small = shrink(exe, mmodel, txt, workdir, pid, ds[0].get("kind"))
             ri, rm = run_one(exe, mmodel, small, workdir, 9998)
             ds2 = compare(small, ri, rm, pid) or ds
             sig = props.signature(pid, small, ds2)
@@ -371,7 +378,11 @@ def main():
         # known findings
         kf = [k for k in known_findings() if k.get("property") == pid and k.get("kind") == "known"]
         final = []
+        seen_sig = set()
         for sig, rp, nofail in violations:
+            if sig in seen_sig:
+                continue
+            seen_sig.add(sig)
             hit = [k for k in kf if k.get("key") == sig]
             if hit:
                 print("KNOWN-FINDING: property=%s %s" % (pid, hit[0].get("what", sig)))
